@@ -205,9 +205,14 @@ def check_flow_1d(names, base, seed, n):
         try:
             heavy = names[0].startswith("LogTanh")  # only the forward LogTanh (always the first leaf) has the exp(z/alpha) tails
             xmax = 1e150 if heavy else 1e6
-            if any(k.startswith("Inv(LogTanh") for k in names):
-                xmax = min(xmax, 60.0)  # the inverse of LogTanh is exp(x/alpha)/beta: it overflows float64 beyond |x| ~ 250 and the density is exactly 0 long before
-            I, I2 = integrate_flow_1d(flow, tp, 2 * n if heavy else n, ctx, xmax=xmax)  # (LogTanh with cut 0.5: alpha is smaller, tails even heavier, still < 1e13 for |z| <= 8)
+            try:
+                I, I2 = integrate_flow_1d(flow, tp, 2 * n if heavy else n, ctx, xmax=xmax)
+            except Exception:
+                if not any(k.startswith("Inv(LogTanh") for k in names):
+                    raise
+                # the inverse of LogTanh is exp(x/alpha)/beta: it overflows float64 beyond |x| ~ 250 (inf/nan reach the next leaf,
+                # which may raise) while the density is exactly 0 long before; integrate over |x| <= 60 instead
+                I, I2 = integrate_flow_1d(flow, tp, n, ctx, xmax=60.0)  # (LogTanh with cut 0.5: alpha is smaller, tails even heavier, still < 1e13 for |z| <= 8)
         except Exception as e:
             out.append(("evaluate", "log_prob raises %s on the data space" % type(e).__name__, "%s: log_prob on the %s grid raised %s: %s" % (label, tp, type(e).__name__, str(e)[:100])))
             return out
